@@ -153,12 +153,14 @@ def main():
                 # slider values other than the library defaults, so that a dropped option shows
                 bp_iter = rng.choice([1, 2]) if dec_name == 'MBP' else rng.choice([1, 3, 10])
                 alpha, beta = rng.choice([(0.4, 0), (0.75, 0), (0.5, 0.1)])
-                body = {'Lx': size[0], 'Ly': size[1], 'code_name': name, 'code_deformation_name': cdef, 'syndrome': syn, 'p': 0.1,
+                p_dec = rng.choice([0.05, 0.1, 0.2])          # the Probability slider: decode at several rates,
+                p_new = rng.choice([0, 0, 0.1, 0.25, 1])       # new errors also at both ends of the slider
+                body = {'Lx': size[0], 'Ly': size[1], 'code_name': name, 'code_deformation_name': cdef, 'syndrome': syn, 'p': p_dec,
                         'noise_deformation_name': ndef, 'max_bp_iter': bp_iter, 'alpha': alpha, 'beta': beta, 'decoder': dec_name, 'error_model': em_name}
                 if len(size) == 3:
                     body['Lz'] = size[2]
                 rec = {'menu': name, 'cls': cls, 'size': list(size), 'decoder': dec_name, 'code_deformation': cdef, 'noise_deformation': ndef, 'error_model': em_name,
-                       'max_bp_iter': bp_iter, 'alpha': alpha, 'beta': beta, 'syndrome': syn}
+                       'max_bp_iter': bp_iter, 'alpha': alpha, 'beta': beta, 'syndrome': syn, 'p_decode': p_dec, 'p_new_errors': p_new}
                 try:
                     with contextlib.redirect_stdout(io.StringIO()):
                         npr.default_rng = lambda *a, **k: real_rng(1234)
@@ -171,14 +173,14 @@ def main():
                             kw = {'max_bp_iter': bp_iter, 'osd_order': 0}
                         if dec_name == 'MBP':
                             kw = {'max_bp_iter': bp_iter, 'alpha': alpha, 'beta': beta}
-                        lib = G.decoders[dec_name](code, em, 0.1, **kw).decode(np.array(syn))
+                        lib = G.decoders[dec_name](code, em, p_dec, **kw).decode(np.array(syn))
                         if r.status_code == 200:
                             d = r.get_json(force=True)
                             rec['equal'] = (d['x'] == np.asarray(lib[:code.n]).tolist() and d['z'] == np.asarray(lib[code.n:]).tolist()) \
                                 or dec_name in ('SweepMatch', 'RotatedSweepMatch')
-                        r2 = client.post('/new-errors', json=body)
+                        r2 = client.post('/new-errors', json=dict(body, p=p_new))
                         rec['status_new'] = r2.status_code
-                        lib_err = em.generate(code, 0.1, rng=real_rng(1234))
+                        lib_err = em.generate(code, p_new, rng=real_rng(1234))
                         if r2.status_code == 200:
                             rec['equal_new'] = r2.get_json(force=True) == np.asarray(lib_err).tolist()
                 except Exception as ex:
